@@ -691,10 +691,35 @@ class Normalizer:
         ast.fix_missing_locations(new)
         return new
 
+    @staticmethod
+    def _fold_continue(body):
+        """N35: inside a loop body `A; if c: continue; B` is `A; if not c: B` (guard clauses of a loop round)"""
+        for k_, s_ in enumerate(body):
+            if isinstance(s_, ast.If) and not s_.orelse and s_.body and isinstance(s_.body[-1], ast.Continue) \
+                    and not any(isinstance(n_, (ast.Continue, ast.Break)) for x_ in s_.body[:-1] for n_ in ast.walk(x_)):
+                rest = Normalizer._fold_continue(list(body[k_ + 1:]))
+                import copy as _copy
+                cond = s_.test
+                neg = cond.operand if (isinstance(cond, ast.UnaryOp) and isinstance(cond.op, ast.Not)) else ast.UnaryOp(op=ast.Not(), operand=cond)
+                new = ast.If(test=_copy.deepcopy(cond), body=[_copy.deepcopy(x_) for x_ in s_.body[:-1]] or [ast.Pass()],
+                             orelse=rest or [ast.Pass()])
+                if not s_.body[:-1]:
+                    new = ast.If(test=_copy.deepcopy(neg), body=rest or [ast.Pass()], orelse=[])
+                ast.copy_location(new, s_)
+                ast.fix_missing_locations(new)
+                return list(body[:k_]) + [new]
+        return list(body)
+
     def loop(self, st, env):
         eye = self._eye_rows(st, env)
         if eye is not None:
             st = eye
+        if any(isinstance(n_, ast.Continue) for n_ in ast.walk(st)):
+            folded = self._fold_continue(st.body)
+            if not any(isinstance(n_, ast.Continue) for x_ in folded for n_ in ast.walk(x_)):
+                import copy as _copy
+                st = _copy.copy(st)
+                st.body = folded
         self.depth += 1
         self.loop_uid += 1
         d = self.loop_uid
